@@ -33,9 +33,9 @@ CHECKS = {
     "C10": ("other", "two-state frame contracts on read-only operations + bounded differential histories",
             "Proved: 13 read-only operations on fresh receivers and 5 on lazily selected ones write no pre-existing buffer and preserve the rows; the buffer-dependence obligation on lazily selected receivers is refuted and is the recorded known finding. The history relation itself is bounded.", "0, 11/C10"),
     "C11": ("other", "contracts around the bucket structure + bounded Python-dict stand-in",
-            "Proved: hash is a bucket index for every key sign, _get_indices against its callees' contracts (refusal iff a key is absent; the offsets locate the keys), scalar-valued lookup/refusal, assignment order, contains scatter. The constructor (bucket build) and histories are bounded. One known finding (8-bit key dtype with a wider modulus).", "0, 11/C11"),
+            "Proved: hash is a bucket index for every key sign, _get_indices against its callees' contracts (refusal iff a key is absent; the offsets locate the keys), scalar-valued lookup/refusal, assignment order, contains scatter. the constructor establishes the bucket invariant (every cell lies in the bucket of its key's hash, keys and values permuted alike, nothing lost; five inductions over the sort / unique-counts / prefix-sum chain). Histories against a dict are bounded. One known finding (8-bit key dtype with a wider modulus).", "0, 11/C11"),
     "C12": ("other", "contract of Counter.count's state update + bounded collections.Counter stand-in",
-            "Proved: which samples are looked up and values' = values + hits per flat position in all four value states (bincount contract), ravel_multi_index, hash. The bucket comparison chain and totals end-to-end are bounded.", "0, 11/C12"),
+            "Proved: which samples are looked up and values' = values + hits per flat position in all four value states (bincount contract), ravel_multi_index, hash. the constructor's bucket invariant (HashTable.__init__). Totals end-to-end against collections.Counter are bounded.", "0, 11/C12"),
     "C13": ("proof", "contract-based deductive verification in QF_BV + linear integer arithmetic of the real pack / unpack / __getitem__ / sliding_window",
             "Every clause of the property is a discharged obligation generated from the real functions: pack (digit j of register q = element qk+j, zero beyond n, input untouched), unpack, integer and list indexing, sliding_window for every window size, for every b in {1,2,4,8,16,32} and every in-register offset (the property's own finite domain), with length, register index, positions and window size symbolic. A bounded cross-check runs in addition.", "0, 11/C13"),
     "C14": ("other", "contracts (encoder canonical form, decoder XOR scan with invariant, constructor) + bounded numpy stand-in",
